@@ -225,9 +225,11 @@ def group_form(repo, fn):
     else:
         if not rec["pairs"]:
             raise AnalysisError(f"{clo.qualname}: neither generic nor a (python, numba) kernel pair")
-        py = repo.functions.get(f"{AGG}.{rec['pairs'][0][0]}")
+        pair = rec["pairs"][0]
+        pyname = pair[0] if not pair[0].endswith("_numba") else pair[1]
+        py = repo.functions.get(f"{AGG}.{pyname}")
         if py is None:
-            raise AnalysisError(f"{clo.qualname}: kernel {rec['pairs'][0][0]} not found")
+            raise AnalysisError(f"{clo.qualname}: kernel {pyname} not found")
         kr = python_kernel_record(repo, py)
         rec["kernel"] = py.name
         rec["stat"] = [(kr["stat"][0], kr["stat"][1])]
